@@ -76,6 +76,9 @@ class WExec(Exec):
 
         if cfg.get('preprocess'):
             def preprocess(self, x):
+                if isinstance(x, BaseException) or type(x).__name__ == 'RemoteException':
+                    # a user's preprocess works on its input; an upstream error must never get here
+                    raise TypeError(f'preprocess received a non-input: {x!r}')
                 if isinstance(x, str) and x.startswith('rej'):
                     raise Boom('pre', x)
                 return x
